@@ -14,7 +14,7 @@ from vpbt.gen import streams as S
 ID = "C10"
 LEVEL = "exploration"
 RULE = (
-    "Lists of 1-5 member streams: the 32 corpus streams (profiles LD/HQ, versions 1-3, fragments, fields, different formats and "
+    "Lists of 1-5 member streams: the 34 corpus streams (profiles LD/HQ, versions 1-3, fragments, fields, different formats and "
     "picture numbering), freshly encoded random configurations with drawn picture numbering (incl. wrap at 2^32), and at most one "
     "non-conformant member (bit-field mutation of a corpus stream, major_version one too high, or a stream cut short so that only the end-of-sequence rules -- incomplete fragmented picture, odd number of fields -- fail) at a drawn position. A non-conformant member is only used if, "
     "alone, it fails with an error other than UnexpectedEndOfStream (a member whose parse runs off its own end is not delimited). "
